@@ -12,10 +12,10 @@ class StaticCsrArray:
                  data: typing.Sequence[int]):
         self._indptr = np.array(indptr)
         self._data = np.array(data)
-        self._max_row = len(self._indptr)
+        self._max_row = len(self._indptr) - 1
 
     def outgoing_nodes(self, row: int) -> typing.Sequence[int]:
-        if row < 0 or self._max_row < row:
+        if row < 0 or self._max_row <= row:
             raise ValueError(f'No such row {row}')
 
         start = self._indptr[row]
@@ -68,7 +68,10 @@ class CsrIndexedOntologyGraph(IndexedOntologyGraph):
         return self._traverse_graph(source, self.get_parents_idx)
 
     def idx_to_node(self, idx: int) -> NODE:
-        return self._nodes[idx]
+        if 0 <= idx < len(self._nodes):
+            return self._nodes[idx]
+        else:
+            raise ValueError(f'No node for index {idx}')
 
     def node_to_idx(self, node: NODE) -> typing.Optional[int]:
         try:
